@@ -555,6 +555,42 @@ class Repo:
             return vals if isinstance(expr, ast.List) else tuple(vals)
         if isinstance(expr, ast.Dict):
             return {f(k): f(v) for k, v in zip(expr.keys, expr.values) if k is not None}
+        if isinstance(expr, (ast.DictComp, ast.ListComp, ast.SetComp, ast.GeneratorExp)) and len(expr.generators) == 1 and not expr.generators[0].is_async:
+            # a comprehension over a constant iterable with a foldable element: {v: k for k, v in TABLE.items()}
+            g = expr.generators[0]
+            it = g.iter
+            if isinstance(it, ast.Call) and isinstance(it.func, ast.Attribute) and it.func.attr in ("items", "keys", "values") and not it.args:
+                base = f(it.func.value)
+                if not isinstance(base, dict):
+                    raise Unfoldable("comprehension over a non-dict")
+                seq: t.List[t.Any] = list(getattr(base, it.func.attr)())
+            else:
+                seqv = f(it)
+                if not isinstance(seqv, (list, tuple, dict, range)):
+                    raise Unfoldable("comprehension over a non-constant")
+                seq = list(seqv)
+            if len(seq) > 256:
+                raise Unfoldable("comprehension too large")
+            out_items: t.List[t.Any] = []
+            for item in seq:
+                env2 = dict(env or {})
+                tg = g.target
+                if isinstance(tg, ast.Name):
+                    env2[tg.id] = item
+                elif isinstance(tg, (ast.Tuple, ast.List)) and all(isinstance(x, ast.Name) for x in tg.elts) and isinstance(item, (tuple, list)) and len(item) == len(tg.elts):
+                    for x, v_ in zip(tg.elts, item):
+                        env2[x.id] = v_  # type: ignore[attr-defined]
+                else:
+                    raise Unfoldable("comprehension target")
+                if not all(self.fold(c, mod, env2, _depth + 1) for c in g.ifs):
+                    continue
+                if isinstance(expr, ast.DictComp):
+                    out_items.append((self.fold(expr.key, mod, env2, _depth + 1), self.fold(expr.value, mod, env2, _depth + 1)))
+                else:
+                    out_items.append(self.fold(expr.elt, mod, env2, _depth + 1))
+            if isinstance(expr, ast.DictComp):
+                return dict(out_items)
+            return set(out_items) if isinstance(expr, ast.SetComp) else out_items
         if isinstance(expr, ast.Subscript):
             base = f(expr.value)
             if isinstance(expr.slice, ast.Slice):
